@@ -717,6 +717,85 @@ theorem names_stable (env : Env) (t : STree) (body patch0 ps pp : J) (k : Str) (
   exact ⟨by simp only [annNames, isDRS_merge (t1.keepsWf hw) hs1 body],
     by simp only [annNames, isDRS_merge (t2.keepsWf hw) hs2 body]⟩
 
+/-! ## Sequences: several handlers' operations accumulated in one patch
+
+The isolation theorems above hold for ANY accumulated patch `patch0`, so they compose over the
+sequences of a handling cycle (records of several handlers pending in the patch, one of them
+finished and purged at once, the last-handled state stored in between).  The compositions the
+sequence run of the harness judges, spelled out: -/
+
+/-- a record stored into the patch is still what is read after ANOTHER handler (disjoint names) is
+    purged in the same patch — whether that purge nullifies (record on the body) or withdraws a
+    pending write -/
+theorem pending_store_survives_purge (env : Env) (c : AnnCfg) (body patch0 p1 p2 : J) (k k' : Str) (r : Rec)
+    (hc : env.dec (env.enc (obj (stored c.verbose r))) = some (obj (stored c.verbose r)))
+    (hw : wf patch0 = true) (hs : MarkStable patch0)
+    (h1 : annStore env c body patch0 k' r = .ok p1)
+    (h2 : annPurge env c body p1 k = .ok p2)
+    (hdisj : ∀ n ∈ annNames env c.pfx c.v1 body k, ∀ n' ∈ annNames env c.pfx c.v1 body k', n' ≠ n) :
+    annFetch env c (mergePatch body p2) k' = .ok (some (obj (stored c.verbose r))) := by
+  have hstab : MarkStable p1 ∧ wf p1 = true := by
+    unfold annStore at h1
+    cases e1 : ensureAll patch0 (annNames env c.pfx c.v1 body k') (str (env.enc (obj (stored c.verbose r)))) with
+    | error e => rw [e1] at h1; cases h1
+    | ok q =>
+      rw [e1] at h1
+      have t1 := ensureAll_touches _ (wf_str _) e1
+      have t2 := storeMarker_touches h1
+      exact ⟨(hs.of_touches_ann t1).of_touches_ann (names := [markerName c.pfx]) (by simpa using t2),
+        t2.keepsWf (t1.keepsWf hw)⟩
+  rw [isolation_other_handler_purge env c body p1 p2 k k' hstab.2 hstab.1 h2 hdisj]
+  exact roundtrip_ann env c body patch0 p1 k' r hc hw hs h1
+
+/-- `statusFetch` never answers `null` (a null entry reads as no record) -/
+theorem statusFetch_ne_null (c : StatusCfg) (b : J) (k : Str) (x : J)
+    (h : statusFetch c b k = .ok (some x)) : x ≠ null := by
+  intro hx
+  subst hx
+  unfold statusFetch at h
+  cases hc : (resolve? b c.field).getD (obj []) with
+  | obj ckvs =>
+    rw [hc] at h
+    cases hl : lookup (String.ofList k) ckvs with
+    | none => simp [hl] at h
+    | some v => cases v <;> simp_all
+  | _ => rw [hc] at h; simp at h
+
+/-- status storage, at the level of `fetch`: a record another handler `k'` reads from the object
+    patched with what is pending (`p1` — ANY well-formed patch) is still what it reads when the
+    purge of `k` is added to the patch.  (A purge that withdrew the whole pending container, not
+    only its own entry, would fail exactly this.) -/
+theorem status_record_survives_other_purge (c : StatusCfg) (body p1 p2 : J) (k k' : Str) (x : J)
+    (hw : wf p1 = true) (hne : k' ≠ k)
+    (hf : statusFetch c (mergePatch body p1) k' = .ok (some x))
+    (h2 : statusPurge c body p1 k = .ok p2) :
+    statusFetch c (mergePatch body p2) k' = .ok (some x) := by
+  have hx := statusFetch_ne_null c _ k' x hf
+  have hr := resolve_of_statusFetch c _ k' x hf
+  have hd : diverge (c.field ++ [String.ofList k']) (c.field ++ [String.ofList k]) = true := by
+    induction c.field with
+    | nil =>
+      exact diverge_cons_ne (fun e => hne (by simpa using congrArg String.toList e)) _ _
+    | cons a t ih => simpa [diverge_cons_same] using ih
+  rw [← isolation_purge_status c body p1 p2 k hw h2 _ hd] at hr
+  exact statusFetch_of_resolve c _ k' x hr hx
+
+/-- … and when another handler's record is stored into the same patch -/
+theorem status_record_survives_other_store (c : StatusCfg) (body p1 p2 : J) (k k' : Str) (r : Rec) (x : J)
+    (hw : wf p1 = true) (hrw : wf (obj r) = true) (hne : k' ≠ k)
+    (hf : statusFetch c (mergePatch body p1) k' = .ok (some x))
+    (h2 : statusStore c p1 k r = .ok p2) :
+    statusFetch c (mergePatch body p2) k' = .ok (some x) := by
+  have hx := statusFetch_ne_null c _ k' x hf
+  have hr := resolve_of_statusFetch c _ k' x hf
+  have hd : diverge (c.field ++ [String.ofList k']) (c.field ++ [String.ofList k]) = true := by
+    induction c.field with
+    | nil =>
+      exact diverge_cons_ne (fun e => hne (by simpa using congrArg String.toList e)) _ _
+    | cons a t ih => simpa [diverge_cons_same] using ih
+  rw [← isolation_store_status c body p1 p2 k r hw hrw h2 _ hd] at hr
+  exact statusFetch_of_resolve c _ k' x hr hx
+
 /-! ## The covering hypothesis of `roundtrip_status` -/
 
 /-- the covering hypothesis of `roundtrip_status` is necessary: a record written over an older
@@ -799,6 +878,30 @@ example : ∀ p', STree.purge env0 body0 k0 (obj []) t0 = .ok p' →
         have e1 : sc = sc0 := by simpa [show t0.flatten = [.ann c0, .status sc0] from rfl] using hsc
         have e2 : sc' = sc0 := by simpa [show t0.flatten = [.ann c0, .status sc0] from rfl] using hsc'
         subst e1; subst e2; exact Or.inl rfl) h
+
+/-- `pending_store_survives_purge` applied: the record of `k0` stored into the patch is read back although the handler
+    `other` is purged in the same patch -/
+example : ∀ p1 p2, annStore env0 c0 body0 (obj []) k0 r0 = .ok p1 → annPurge env0 c0 body0 p1 "other".toList = .ok p2 →
+    annFetch env0 c0 (mergePatch body0 p2) k0 = .ok (some (obj [("retries", num 1)])) :=
+  fun p1 p2 h1 h2 => pending_store_survives_purge env0 c0 body0 (obj []) p1 p2 "other".toList k0 r0 rfl
+    (by decide) markStable_nil h1 h2 (by decide)
+
+/-- an object without status records, and a patch in which the records of `a` and `b` are pending -/
+def bodyS : J := obj [("metadata", obj [("name", str "x")])]
+def patchS : J := obj [("status", obj [("kopf", obj [("progress",
+  obj [("a", obj [("retries", num 3)]), ("b", obj [("retries", num 4)])])])])]
+
+/-- `status_record_survives_other_purge` applied where the purge WITHDRAWS a pending record (nothing of `b` is on the
+    object): `a`'s pending record stays -/
+example : ∀ p2, statusPurge sc0 bodyS patchS "b".toList = .ok p2 →
+    statusFetch sc0 (mergePatch bodyS p2) "a".toList = .ok (some (obj [("retries", num 3)])) :=
+  fun p2 h => status_record_survives_other_purge sc0 bodyS patchS p2 "b".toList "a".toList _ (by decide) (by decide) rfl h
+example : (match statusPurge sc0 bodyS patchS "b".toList with | .ok _ => true | _ => false) = true := by decide
+
+/-- `status_record_survives_other_store` applied -/
+example : ∀ p2, statusStore sc0 patchS "c".toList [("retries", num 5)] = .ok p2 →
+    statusFetch sc0 (mergePatch bodyS p2) "a".toList = .ok (some (obj [("retries", num 3)])) :=
+  fun p2 h => status_record_survives_other_store sc0 bodyS patchS p2 "c".toList "a".toList _ _ (by decide) (by decide) (by decide) rfl h
 
 /-- `foreign_annotation_untouched`: the user annotation `note` is not `<prefix>/…` -/
 example : ∀ x, "note".toList ≠ c0.pfx ++ '/' :: x := by
